@@ -14,6 +14,7 @@
 -/
 import RosuModel.Props.C04
 import RosuModel.Lemmas.RtTimingFile
+import RosuModel.Lemmas.RtTimingDecoded
 namespace Rosu.C04
 open Rosu Encode EncodeLines C11 RtTiming
 
@@ -46,6 +47,23 @@ theorem timing_block_lines (m : Beatmap F P) (t : Str) (h : encodeTimingPoints m
       rw [← h2]; exact hu
     · rw [hn] at h2; cases h2
   · exact Or.inr hk
+
+/-- **decoded_control_points_in_limits** (no law — holds of the IEEE instance). Which clauses of `RepTimingMap` a DECODED
+map satisfies by construction: whatever lines were decoded, the map's own control points are strictly sorted, every time is
+within the parse limit ±(2³¹−1) and not NaN, every signature numerator is in `1 … 2³¹−1`, every custom bank within
+±(2³¹−1). (Beat lengths and velocities inside their clamps: `C12.clamps`, under the clamp laws.) What this does not cover —
+and what a decoded map can violate — are the sample points `collect_samples` adds at computed times, and representability by
+the number codec (`R`), which is the codec's law. -/
+theorem decoded_control_points_in_limits (x : List Str) (m : Beatmap F P)
+    (h : (frame (beatmapDecoder : LineDecoder (BeatmapState F P)) x).finish = .ok m) :
+    C13.Sorted m.controlPoints ∧
+    (∀ t ∈ m.controlPoints.timingPoints,
+      InLimit t.time ∧ 1 ≤ t.timeSignature.numerator ∧ (t.timeSignature.numerator : Int) ≤ i32Max) ∧
+    (∀ p ∈ m.controlPoints.difficultyPoints, InLimit p.time) ∧
+    (∀ p ∈ m.controlPoints.effectPoints, InLimit p.time) ∧
+    (∀ s ∈ m.controlPoints.samplePoints, InLimit s.time ∧ -i32Max ≤ s.customSampleBank ∧ s.customSampleBank ≤ i32Max) := by
+  obtain ⟨h1, h2⟩ := decoded_points_in_limits x m h
+  exact ⟨h1, h2.t, h2.d, h2.e, h2.s⟩
 
 section
 variable {RF : F → Prop} {RP : P → Prop}
